@@ -354,13 +354,23 @@ package jet
 //@   requires RtOK(st) && node != nil && WF(node)
 //@   modifies @Interp
 //@   loop 0 invariant SameS(st) && RtOK(st) && 0 <= i
+//@   loop 0 invariant [a-field-path-starts-at-dot-and-looks-up-one-member-per-step] {C06} visits("resolveIndex", 0) == i && (i == 0 ==> resolved == st.context) && (i > 0 ==> resolved == lastret("resolveIndex", 0)) && i <= len(node.Ident)
 //@   ensures [balanced] SameS(st)
+//@   ensures [nil-literal-is-the-invalid-value] {C06,C04} NTF(node) == NodeNil ==> !RvValid(result)
+//@   ensures [bool-literals] {C04} NTF(node) == NodeBool ==> result == ite(as(node, "*BoolNode").True, valueBoolTRUE, valueBoolFALSE)
+//@   ensures [an-identifier-evaluates-to-what-it-resolves-to] {C07,C06} NTF(node) == NodeIdentifier ==> result == lastret("(*Runtime).resolve", 0)
+//@   callsite (*Runtime).resolve 0 requires [identifiers-are-resolved-by-their-name] {C07} name == as(caller.node, "*IdentifierNode").Ident
+//@   callsite resolveIndex 0 requires [field-members-are-looked-up-in-order-on-the-previous-result] {C06} indexAsStr == as(caller.node, "*FieldNode").Ident[caller.i] && !RvValid(index) && v == caller.resolved
+//@   ensures [a-field-path-evaluates-to-its-last-member] {C06} NTF(node) == NodeField ==> visits("resolveIndex", 0) == len(as(node, "*FieldNode").Ident) && result == lastret("resolveIndex", 0)
+//@   ensures [a-chain-evaluates-to-what-its-evaluator-returns] {C06} NTF(node) == NodeChain ==> result == lastret("(*Runtime).evalChainNodeExpression", 0)
 //@   anypanic
 //@   exsures [runtime-valid-on-panic] RtX(st)
 //@ func (*Runtime).evalCallExpression
 //@   props C07 C13 C10 C12 C14
 //@   requires RtOK(st) && WFArgs(args) && RvKind(baseExpr) == 19
 //@   modifies @Interp
+//@   callsite (*Runtime).evalPipeCallExpression 0 requires [a-plain-call-is-a-piped-call-without-a-piped-value] {C14} baseExpr == caller.baseExpr && args == caller.args && pipedArg == nil
+//@   ensures [a-plain-call-is-a-piped-call-without-a-piped-value] {C14} result0 == lastret("(*Runtime).evalPipeCallExpression", 0) && result1 == lastret("(*Runtime).evalPipeCallExpression", 1)
 //@   ensures [balanced] SameS(st)
 //@   anypanic
 //@   exsures [runtime-valid-on-panic] RtX(st)
@@ -368,6 +378,11 @@ package jet
 //@   props C07 C13 C10 C12 C14
 //@   requires RtOK(st) && WFArgs(args) && RvKind(baseExpr) == 19
 //@   modifies @Interp, cell pipedArg
+//@   callsite type:Func * requires [a-jet-func-receives-the-unevaluated-arguments-and-the-piped-value] {C14} a.runtime == st && a.args == caller.args && a.pipedVal == caller.pipedArg
+//@   callsite (*Runtime).evaluateArgs 0 requires [go-functions-get-their-arguments-from-evaluateargs] {C14} fnType == RvTypeOf(caller.baseExpr) && args == caller.args && pipedArg == caller.pipedArg
+//@   callsite (reflect.Value).Call 0 requires [the-function-is-called-once-with-the-evaluated-arguments] {C14} v == caller.baseExpr && in == lastret("(*Runtime).evaluateArgs", 0)
+//@   callsite (reflect.Value).Call count 1
+//@   callsite (*Runtime).evaluateArgs count 1
 //@   ensures [balanced] SameS(st)
 //@   anypanic
 //@   exsures [runtime-valid-on-panic] RtX(st)
@@ -375,6 +390,11 @@ package jet
 //@   props C07 C13 C10 C12 C14
 //@   requires RtOK(st) && node != nil && WFCmd(node)
 //@   modifies @Interp
+//@   callsite (*Runtime).evalPrimaryExpressionGroup 0 requires [a-command-evaluates-its-base-expression] {C14} node == caller.node.CallExprNode.BaseExpr
+//@   callsite (*Runtime).evalCallExpression 0 requires [prefix-call-f-colon-a-b-is-f-of-a-b] {C14} baseExpr == lastret("(*Runtime).evalPrimaryExpressionGroup", 0) && args == caller.node.CallExprNode.CallArgs
+//@   callsite (*Runtime).evalSafeWriter 0 requires [a-safewriter-command-prints-its-own-arguments] {C14,C01} term == lastret("(*Runtime).evalPrimaryExpressionGroup", 0) && node == caller.node && len(v) == 0
+//@   callsite (*Runtime).evalPrimaryExpressionGroup count 1
+//@   ensures [a-command-without-arguments-is-its-value] {C14} node.CallExprNode.CallArgs.Exprs == nil ==> result0 == lastret("(*Runtime).evalPrimaryExpressionGroup", 0) && !result1
 //@   ensures [balanced] SameS(st)
 //@   anypanic
 //@   exsures [runtime-valid-on-panic] RtX(st)
@@ -405,6 +425,11 @@ package jet
 //@   props C07 C13 C10 C12 C14
 //@   requires RtOK(st) && node != nil && WFCmd(node)
 //@   modifies @Interp
+//@   callsite (*Runtime).evalPrimaryExpressionGroup 0 requires [a-pipe-stage-evaluates-its-base-expression] {C14} node == caller.node.CallExprNode.BaseExpr
+//@   callsite (*Runtime).evalPipeCallExpression 0 requires [x-pipe-f-is-f-of-x] {C14} baseExpr == lastret("(*Runtime).evalPrimaryExpressionGroup", 0) && args == caller.node.CallExprNode.CallArgs && pipedArg != nil && *pipedArg == caller.value
+//@   callsite (*Runtime).evalSafeWriter 0 requires [a-safewriter-stage-prints-the-piped-value-first] {C14,C01} term == lastret("(*Runtime).evalPrimaryExpressionGroup", 0) && node == caller.node && len(v) == 1 && v[0] == caller.value
+//@   callsite (*Runtime).evalPrimaryExpressionGroup count 1
+//@   callsite (*Runtime).evalPipeCallExpression count 1
 //@   ensures [balanced] SameS(st)
 //@   anypanic
 //@   exsures [runtime-valid-on-panic] RtX(st)
@@ -413,7 +438,13 @@ package jet
 //@   requires RtOK(st) && node != nil && WFPipe(node)
 //@   modifies @Interp
 //@   callsite (*Runtime).evalCommandPipeExpression 0 requires [writer-command-must-be-last] {C01,C14} !caller.safeWriter
+//@   callsite (*Runtime).evalCommandExpression 0 requires [a-pipeline-starts-with-its-first-command] {C14} node == caller.node.Cmds[0]
+//@   callsite (*Runtime).evalCommandPipeExpression 0 requires [each-stage-receives-the-value-of-the-stage-before] {C14} node == caller.node.Cmds[caller.i] && value == caller.value
+//@   callsite (*Runtime).evalCommandExpression count 1
+//@   callsite (*Runtime).evalCommandPipeExpression count 1
 //@   loop 0 invariant SameS(st) && RtOK(st) && 1 <= i
+//@   loop 0 invariant [stages-run-left-to-right-once-each] {C14} visits("(*Runtime).evalCommandPipeExpression", 0) == i - 1 && i <= len(node.Cmds)
+//@   ensures [every-stage-ran] {C14} visits("(*Runtime).evalCommandPipeExpression", 0) == len(node.Cmds) - 1
 //@   ensures [balanced] SameS(st)
 //@   anypanic
 //@   exsures [runtime-valid-on-panic] RtX(st)
